@@ -498,13 +498,20 @@ func (t *Collection) VisitItemsRandom(
 		return err
 	}
 	blockStore = RandBm(blockStore)
+	// The last block may be shorter than the others (or the visitor may
+	// have asked to stop), so remember which blocks have been exhausted.
+	blockDone := make([]bool, len(blockStore))
 
 	for j := lenBlock + 1; j > 0; j-- {
 		for i, si := range blockStore {
+			if blockDone[i] {
+				continue
+			}
 			// The behaviour we want is to visit the first item in each of blockStore
 			// then on the second item update blockStore to point to that second item
 			// repeat for each item in the block
 			first := true
+			advanced := false
 			vis := func(itm *Item, depth uint64) bool {
 
 				if first {
@@ -513,11 +520,15 @@ func (t *Collection) VisitItemsRandom(
 				}
 				first = true
 				blockStore[i] = itm.Key
+				advanced = true
 				return false
 			}
 			err = t.VisitItemsAscendEx(si, true, vis)
 			if err != nil {
 				return err
+			}
+			if !advanced {
+				blockDone[i] = true // There was no next item to move on to.
 			}
 		}
 	}
